@@ -307,7 +307,7 @@ def impl_preimages(c):
 
 def _e1_digests(ctx):
     rng = ctx.rng
-    n = ctx.scale(300, 4000)
+    n = ctx.scale(300, 2500)
     cfgs = [_witness_cfgs()[k] for k in ("d2_A", "d2_B", "d2b_1", "d2b_2")]
     cfgs += [{"label": "", "shell": False, "inps": {}, "envs": {}, "ovrs": {}, "outs": {}}]
     while len(cfgs) < n:
@@ -370,7 +370,8 @@ def q_fhash(h):
 
 
 REFRESH_OPS = ["none", "touch", "touch_small", "chmod", "rewrite_same_size", "rewrite_same_size_keep_mtime",
-               "append", "truncate", "replace_inode_keep_rest", "replace_inode", "remove", "start_unknown",
+               "append", "truncate", "replace_inode_keep_rest", "replace_inode",
+               "replace_inode_new_content_keep_rest", "remove", "start_unknown",
                "start_unknown_missing", "remove_then_again"]
 
 
@@ -397,11 +398,12 @@ def _apply_op(rng, op, path):
     elif op == "truncate":
         with open(path, "wb"):
             pass
-    elif op in ("replace_inode_keep_rest", "replace_inode"):
+    elif op in ("replace_inode_keep_rest", "replace_inode", "replace_inode_new_content_keep_rest"):
         data = open(path, "rb").read()
         tmp = path + ".new"
         with open(tmp, "wb") as fh:
-            fh.write(data if op.endswith("keep_rest") else data[::-1] + b"!")
+            fh.write(bytes((b + 1) % 256 for b in data) if "new_content" in op
+                     else data if op.endswith("keep_rest") else data[::-1] + b"!")
         os.chmod(tmp, st.st_mode & 0o777)
         os.replace(tmp, path)
         if op.endswith("keep_rest"):
@@ -835,14 +837,19 @@ def _oracle_json(ctx, n):
                 return
 
 
+def _add_once(ctx, kind, name, sig, detail, witness):
+    if not any(f.signature == sig for f in ctx.failures):
+        ctx.add_failure(kind, name, sig, detail, witness=witness)
+
+
 def _oracle_refreshed(ctx, n):
     """Property on real files: content, size or mode changed and (mtime, size, inode, mode) differs
     from the recorded ones => the refreshed hash compares unequal to the old one."""
     for op, old, st, data, new, (data0, mode0) in _refreshed_runs(ctx, n):
         if st is None:
             if not new.is_unknown:
-                ctx.add_failure("oracle", "refreshed:missing", "oracle:refreshed:missing-not-unknown",
-                                f"missing file not reported unknown after {op}", witness={"op": op})
+                _add_once(ctx, "oracle", "refreshed:missing", "oracle:refreshed:missing-not-unknown",
+                          f"missing file not reported unknown after {op}", {"op": op})
             continue
         if old.is_unknown:
             changed = True
@@ -852,17 +859,17 @@ def _oracle_refreshed(ctx, n):
                         or old.inode != st.st_ino)
         ctx.case(("refreshed-oracle", op, len(data), stat_differs, changed), True)
         if changed and stat_differs and new == old:
-            ctx.add_failure("oracle", "refreshed:undetected", f"oracle:refreshed:undetected-change:{op}",
-                            f"after {op} the file changed and its stat signature differs, but refreshed() "
-                            f"returned an equal hash", witness={"op": op, "old": repr(old), "new": repr(new)})
+            _add_once(ctx, "oracle", "refreshed:undetected", f"oracle:refreshed:undetected-change:{op}",
+                      f"after {op} the file changed and its stat signature differs, but refreshed() "
+                      f"returned an equal hash", {"op": op, "old": repr(old), "new": repr(new)})
         if not stat_differs and new is not old:
-            ctx.add_failure("oracle", "refreshed:not-self", f"oracle:refreshed:rehash-without-stat-change:{op}",
-                            f"after {op} the stat signature is the recorded one but refreshed() did not return self",
-                            witness={"op": op})
+            _add_once(ctx, "oracle", "refreshed:not-self", f"oracle:refreshed:rehash-without-stat-change:{op}",
+                      f"after {op} the stat signature is the recorded one but refreshed() did not return self",
+                      {"op": op})
         if new.mode != st.st_mode or new.size != st.st_size or (new is not old and new.digest != hashlib.sha256(data).digest()):
-            ctx.add_failure("oracle", "refreshed:wrong-fields", f"oracle:refreshed:wrong-fields:{op}",
-                            f"after {op} refreshed() returned fields that do not describe the file",
-                            witness={"op": op, "new": repr(new)})
+            _add_once(ctx, "oracle", "refreshed:wrong-fields", f"oracle:refreshed:wrong-fields:{op}",
+                      f"after {op} refreshed() returned fields that do not describe the file",
+                      {"op": op, "new": repr(new)})
 
 
 def oracle(ctx):
